@@ -129,6 +129,51 @@ pub struct Record<T> {
     pub q: T,
     pub grid: Vec<Vec<T>>,
 }
+/// A value one level below a flattened struct: serde buffers the flattened entries in its
+/// private `Content` tree and hands the value's `Deserialize` a deserializer of its own.
+#[derive(Serialize, Deserialize)]
+pub struct Inner<T> {
+    pub q: T,
+    pub note: String,
+}
+#[derive(Serialize, Deserialize)]
+pub struct Outer<T> {
+    pub id: u32,
+    #[serde(flatten)]
+    pub inner: Inner<T>,
+}
+/// An untagged enum (input buffered, variants tried in turn).
+#[derive(Serialize, Deserialize)]
+#[serde(untagged)]
+pub enum Either<T> {
+    One(T),
+    Many(Vec<T>),
+}
+/// Further entries of a user struct collected into a map of values.
+#[derive(Serialize, Deserialize)]
+pub struct Bag<T> {
+    pub id: u32,
+    #[serde(flatten)]
+    pub extra: BTreeMap<String, T>,
+}
+impl<T: Ident> Ident for Outer<T> {
+    fn ident(&self) -> String {
+        format!("Outer#{}({}, {:?})", self.id, self.inner.q.ident(), self.inner.note)
+    }
+}
+impl<T: Ident> Ident for Either<T> {
+    fn ident(&self) -> String {
+        match self {
+            Either::One(x) => format!("One({})", x.ident()),
+            Either::Many(v) => format!("Many{}", v.ident()),
+        }
+    }
+}
+impl<T: Ident> Ident for Bag<T> {
+    fn ident(&self) -> String {
+        format!("Bag#{}{}", self.id, self.extra.ident())
+    }
+}
 impl<T: Ident> Ident for Tagged<T> {
     fn ident(&self) -> String {
         format!("Tagged#{}({})", self.id, self.q.ident())
@@ -254,7 +299,7 @@ fn variant_name<U: Debug>(type_name: &str, idx: usize, u: &U) -> String {
         .unwrap_or_else(|| format!("{:?}", u))
 }
 
-pub const GROUP_FORMS: usize = 7;
+pub const GROUP_FORMS: usize = 10;
 
 fn make<Q>(name: &'static str, what: &SWhat) -> Box<dyn Subject>
 where
@@ -296,6 +341,24 @@ where
                 5 => {
                     let v = Tagged { id: items.len() as u32 + 7, q: qty(get(0).0, get(0).1) };
                     Box::new(Held { describe: format!("flattened {} of {}", v.ident(), name), v, type_name: name, shape: "flatten", unit_variant: None })
+                }
+                7 => {
+                    let v = Outer { id: items.len() as u32 + 3, inner: Inner { q: qty(get(0).0, get(0).1), note: format!("n{}", items.len()) } };
+                    Box::new(Held { describe: format!("{} of {}", v.ident(), name), v, type_name: name, shape: "below-flatten", unit_variant: None })
+                }
+                8 => {
+                    let v = if items.len() % 2 == 1 {
+                        Either::One(qty(get(0).0, get(0).1))
+                    } else {
+                        Either::Many(items.iter().map(|(u, a)| qty(*u, *a)).collect())
+                    };
+                    Box::new(Held { describe: format!("untagged {} of {}", v.ident(), name), v, type_name: name, shape: "untagged", unit_variant: None })
+                }
+                9 => {
+                    let extra: BTreeMap<String, QV<Q>> =
+                        items.iter().enumerate().map(|(i, (u, a))| (format!("k{}", i), qty(*u, *a))).collect();
+                    let v = Bag { id: items.len() as u32, extra };
+                    Box::new(Held { describe: format!("{} of {}", v.ident(), name), v, type_name: name, shape: "flatten-map", unit_variant: None })
                 }
                 6 => {
                     let rest: Vec<QV<Q>> = items.iter().skip(1).map(|(u, a)| qty(*u, *a)).collect();
